@@ -12,14 +12,14 @@ import (
 
 // C18 — line and width metrics are mutually consistent.
 
-var c18Atoms = []string{"\n", "a", " ", "é", "́", "ｗ", "​", "\U0001F469‍\U0001F467", "\xff", "\t"}
+var c18Atoms = []string{"\n", "a", " ", "é", "́", "ｗ", "​", "\U0001F469‍\U0001F467", "\xff", "\t", "\x7f"}
 
 func init() {
 	register(&Check{
 		ID:        "C18",
 		Level:     "exploration",
-		Technique: "bounded exhaustive enumeration of all strings over a 10-atom alphabet, each run through the real metric functions, cells and text renderer",
-		Rule: "family twin-texts: a plain cell and a size-declaring cell holding byte-identical text in one table (measurements must not leak between cells), 4 texts x declared sizes x positions x 2 decorations, compared with the reference renderer; family strings: all strings over the alphabet {LF, a, space, e-acute, lone combining acute, fullwidth w, zero-width space, woman-ZWJ-girl emoji sequence, invalid byte 0xff, TAB} " +
+		Technique: "bounded exhaustive enumeration of all strings over an 11-atom alphabet, each run through the real metric functions, cells and text renderer",
+		Rule: "family twin-texts: a plain cell and a size-declaring cell holding byte-identical text in one table (measurements must not leak between cells), 4 texts x declared sizes x positions x 2 decorations, compared with the reference renderer; family strings: all strings over the alphabet {LF, a, space, e-acute, lone combining acute, fullwidth w, zero-width space, woman-ZWJ-girl emoji sequence, invalid byte 0xff, TAB, DEL} " +
 			"up to length 5 (quick) / 7 (thorough), enumerated completely; a case is non-trivial when the string contains a line feed or a non-ASCII/zero-width atom; distinct by string value",
 		Assumptions: []string{
 			"display width is the library's own measure (length.StringCells); RUNEWIDTH_EASTASIAN=0 LC_ALL=C pinned (thorough repeats nothing under East-Asian width: covered by C03's configuration sweep)",
